@@ -9,11 +9,17 @@ fn drain_all(res: &AtomicSamplingReservoir) -> (Vec<f64>, f64, usize) {
     let mut out = Vec::new();
     let mut rate = f64::NAN;
     let mut len = 0;
-    res.consume(|d| {
+    res.consume(|mut d| {
         rate = d.sample_rate();
         len = d.len();
-        for v in d {
+        // the reported rate belongs to the drain as a whole: it must not depend on how far the drain was iterated
+        let mut k = 0;
+        while let Some(v) = d.next() {
             out.push(v);
+            k += 1;
+            if (k == 1 || d.len() == 0) && d.sample_rate().to_bits() != rate.to_bits() {
+                rate = f64::NAN; // reported below as a wrong sample rate
+            }
         }
     });
     (out, rate, len)
